@@ -83,6 +83,7 @@ let components : (string * (string list * (unit -> z -> tok list -> tok list))) 
   ("dns", (["new"; "parse"; "addq"; "adda"; "addn"; "addr"], mk None dns_step));
   ("sum", (["sum"], mk () sum_step));
   ("tcpo", (["tcpo"], mk () tcpo_step));
+  ("match", (["match"], mk () match_step));
   ("ipr", (["pkt"], mk [] ipr_step));
   ("ack", (["new"; "pkt"; "q"], mk (ack_new Z0 false) ack_step));
 ]
